@@ -24,7 +24,11 @@
      returning pointer to function ..., arrays of such pointers), with __cdecl or __stdcall
      allowed as the first token inside that grouping parenthesis.
    SIDE THEOREMS (all strings): C07_no_fault, C07_result_index_in_range,
-     C07_next_token_stops_at_terminator, C07_lookahead_stops_at_terminator.
+     C07_next_token_stops_at_terminator, C07_lookahead_stops_at_terminator,
+     C07_fuel_suffices (the model's E_out_of_fuel outcome never happens: termination),
+     C07_token_nonempty, C07_parse_from_fuel / C07_parse_complete_fuel / C07_parse_sequel_fuel.
+   REGENERATED TABLES (C07/Gen.v, from the sources on every run): C07_tables_are_the_sources,
+     C07_keyword_lookup_is_source, C07_opcode_numbers_are_source.
    PROVED (C07_agree_names_partial): the same declarators over a base type named through the
      declaration context: declared typedef names, standard *_t names, struct/union tags (declared,
      right or wrong kind), enum tags (declared or not), in any well-formed context.
@@ -39,7 +43,7 @@
 From Coq Require Import List Arith NArith ZArith Lia Bool String.
 Import ListNotations.
 From Cffi Require Import C25.Model C25.Proofs C07.Model C07.Realize C07.PyModel C07.Lexer C07.Tokens C07.Specs
-     C07.SpecsAgree C07.Parse C07.Sequel C07.Sequel2 C07.Agree C07.Tables C07.Names C07.Agree2 C07.NoFault C07.NoFault2 C07.NoFault3.
+     C07.SpecsAgree C07.Parse C07.Sequel C07.Sequel2 C07.Agree C07.Tables C07.Names C07.Agree2 C07.NoFault C07.NoFault2 C07.NoFault3 C07.Fuel C07.Gen C07.GenFacts.
 
 (* "any ordering of primitive specifiers": on every list of specifier keywords the C parser
    (c_spec_abs: modifiers loop, base-type switch, _Complex, nothing left over) and the Python
@@ -141,6 +145,77 @@ Theorem C07_lookahead_stops_at_terminator : forall s junk,
   (forall d acc, ncommas (s ++ 0%N :: junk) d acc = ncommas s d acc).
 Proof. exact lookahead_stops_at_terminator. Qed.
 Print Assumptions C07_lookahead_stops_at_terminator.
+
+(* ---------------------------------------------------------------- termination (the model's fuel) *)
+(* Model.v threads a fuel argument through every loop and recursive call and returns
+   Err E_out_of_fuel at nine places; that outcome does not exist in the C code.  For EVERY input,
+   context and buffer size it never happens with the fuel parse_c_type gives (6*|input|+24): an `Err`
+   of the model is always one of the 24 parse_error() messages of parse_c_type.c.  (So C07_no_fault
+   and C30_type_parser_outcome do not hide a model that "gave up".)
+   NOT covered: base_plain maps every error of the nested parse of a commontypes.c replacement text to
+   E_internal, as parse_common_type_replacement() does; an exhausted fuel inside that nested parse would
+   be an E_internal, see C07_nested_fuel_suffices and the header of Fuel.v. *)
+Theorem C07_fuel_suffices : forall (osz : nat) (cx : ctx) (s : str) (p : nat),
+  parse_c_type osz cx s <> Err E_out_of_fuel p.
+Proof. exact fuel_suffices. Qed.
+Print Assumptions C07_fuel_suffices.
+
+(* the tokenizer: every token other than TOK_END consumes at least one character *)
+Theorem C07_token_nonempty : forall s k n kd, lex_from s = (k, n, kd) -> kd <> KEnd -> (1 <= n)%nat.
+Proof. exact lex_from_pos. Qed.
+Print Assumptions C07_token_nonempty.
+
+(* each recursive function separately, under an explicit fuel-versus-remaining-input bound
+   (m t = characters from tok->p on; good t = the token window is what next_token delivers) *)
+Theorem C07_parse_from_fuel : forall osz cx f input out p, (4 * List.length input + 4 <= f)%nat ->
+  parse_from osz cx f input out <> Err E_out_of_fuel p.
+Proof. exact parse_from_fuel. Qed.
+Print Assumptions C07_parse_from_fuel.
+
+Theorem C07_parse_complete_fuel : forall osz cx f t p, good t -> (4 * m t + 3 <= f)%nat ->
+  parse_complete osz cx f t <> Err E_out_of_fuel p.
+Proof. exact parse_complete_fuel. Qed.
+Print Assumptions C07_parse_complete_fuel.
+
+Theorem C07_parse_sequel_fuel : forall osz cx f t outer p, good t -> (4 * m t + 2 <= f)%nat ->
+  parse_sequel osz cx f t outer <> Err E_out_of_fuel p.
+Proof. exact parse_sequel_fuel. Qed.
+Print Assumptions C07_parse_sequel_fuel.
+
+(* the nested parse of a commontypes.c replacement text, on its own *)
+Theorem C07_nested_fuel_suffices : forall osz cx f repl out p,
+  In repl (map snd C07.Model.common_simple_types) -> (64 <= f)%nat ->
+  parse_from osz cx f repl out <> Err E_out_of_fuel p.
+Proof. exact nested_fuel_suffices. Qed.
+Print Assumptions C07_nested_fuel_suffices.
+
+(* non-vacuity: `good` holds of every token next_token delivers, in particular of the first one *)
+Example C07_good_start : forall input out, good (start_tok input out).
+Proof. intros. unfold start_tok. apply good_next. Qed.
+
+(* ---------------------------------------------------------------- regenerated tables *)
+(* C07/Gen.v is rewritten from src/c/parse_c_type.c (keyword switch of next_token), src/cffi/parse_c_type.h
+   and src/cffi/cffi_opcode.py (opcode numbers), src/c/realize_c_type.c (recursion limit), src/c/ffi_obj.c
+   (FFI_COMPLEXITY_OUTPUT) and src/c/commontypes.c on every run; the model's hand-written tables are
+   those (closed by computation: an edit of a source table breaks this obligation) *)
+Theorem C07_tables_are_the_sources :
+  C07.Gen.keywords = C07.Model.keywords /\
+  forallb op_row_ok model_ops = true /\
+  C07.Gen.c_ops = C07.Gen.py_ops /\
+  Z.of_nat realize_fuel = realize_recursion_limit /\
+  ffi_complexity_output = 1200%Z /\
+  C07.Gen.common_simple_types = C07.Model.common_simple_types.
+Proof. exact gen_tables_pinned. Qed.
+Print Assumptions C07_tables_are_the_sources.
+
+Theorem C07_keyword_lookup_is_source : forall s, kw_of s = assoc_str C07.Gen.keywords s.
+Proof. exact gen_kw_of. Qed.
+Print Assumptions C07_keyword_lookup_is_source.
+
+Theorem C07_opcode_numbers_are_source : forall n v, In (n, v) model_ops ->
+  assoc_str C07.Gen.c_ops n = Some v /\ assoc_str C07.Gen.py_ops n = Some v.
+Proof. exact gen_ops_pinned. Qed.
+Print Assumptions C07_opcode_numbers_are_source.
 
 (* ---------------------------------------------------------------- the full statement is false *)
 Definition nog : genv := mkGenv [] [] [] [].
@@ -273,4 +348,15 @@ Proof.
     split; vm_compute; reflexivity.
   - cbv zeta. split; [|vm_compute; reflexivity].
     exact (BO_su ex_genv TKunion (s2l "s") 0 false _ ltac:(discriminate) eq_refl).
+Qed.
+
+(* non-vacuity of the NStd case of base_ok (C07_agree_names_partial): a standard name that is not a
+   declared typedef of the example context *)
+Example C07_base_ok_std_example :
+  base_ok ex_genv (NStd (s2l "uint16_t")) (Some (OP OP_PRIMITIVE 20, MPrim 20)) /\
+  c_typeof 1200 ex_genv (s2l "uint16_t *") = Some (CPtr (CPrim 20)).
+Proof.
+  split; [|vm_compute; reflexivity].
+  apply BO_std; [|vm_compute; reflexivity].
+  cbn. intros [H | H]; [discriminate H | exact H].
 Qed.
